@@ -10,6 +10,10 @@ class NoEval(Exception):
     pass
 
 
+class Panics(NoEval):
+    """the fragment would panic on this input (index out of bounds, unwrap on None): callers that care may treat it as an observed outcome"""
+
+
 class _Break(Exception):
     pass
 
@@ -198,6 +202,8 @@ class Interp:
                     return b[i]
             except (KeyError, TypeError):
                 pass
+            if isinstance(b, list) and isinstance(i, int) and not isinstance(i, bool):
+                raise Panics('index %d out of bounds (len %d)' % (i, len(b)))
             raise NoEval('index %r' % (i,))
         if k == 'Closure':
             params, body, cenv = e['params'], e['body'], env
@@ -331,7 +337,7 @@ class Interp:
         if _is_opt(recv):
             if nm in ('unwrap', 'expect'):
                 if recv == NONE:
-                    raise NoEval('unwrap on None (the fragment would panic on this input)')
+                    raise Panics('unwrap on None (the fragment would panic on this input)')
                 return recv[1]
             if nm == 'is_some':
                 return recv != NONE
